@@ -37,6 +37,16 @@ func (prop) Gen(r *core.Rand, tier string) []core.Case {
 		{ID: "fix-chunk-edge", NT: true, Ops: []string{"new", fmt.Sprintf("write p:3:%d:4096", 2*C+10), "sum", "open",
 			fmt.Sprintf("readat %d 20 %d", C-10, 20+C), fmt.Sprintf("readat %d 5 64", 2*C+8), fmt.Sprintf("readat %d 5 64", 2*C+10), fmt.Sprintf("seek 11 2"), "read 100 200", "read 100 200"}},
 	}
+	// encrypted tree with two intermediate levels (1 GiB + C + 17 bytes), served on demand by the synthetic
+	// store of filecommon (`new synth`): the reader contract across / beyond the 1 GiB boundary, cap > len
+	{
+		G := 4096 * C
+		size := G + C + 17
+		cs = append(cs, core.Case{ID: "fix-enc-synth-two-levels", NT: true, Ops: []string{
+			fmt.Sprintf("new synth 9 %d 4096", size), "open",
+			fmt.Sprintf("readat %d 200 264", G-50), fmt.Sprintf("readat %d 40 64", G+C+1), fmt.Sprintf("readat %d 10 10", size),
+			fmt.Sprintf("seek %d 0", G+C-5), "read 10 20", "read 100 100", "read 1 1", "seek 30 2", "read 10 10"}})
+	}
 	add := func(id string, total int, k int) {
 		head := "new"
 		if r.Chance(20) {
